@@ -93,8 +93,10 @@ def is_valid(s):
 
 
 def quiet():
+    import warnings
     from pyrefact import logs
     logs.set_level(100)
+    warnings.simplefilter("ignore", SyntaxWarning)
 
 
 def pool_map(fn, items, chunksize=4, procs=16, maxtasks=200):
